@@ -37,6 +37,9 @@ type Exporter struct {
 	// err is the error which ended the traversal early, if any. It is written by the export
 	// goroutine before it closes ch and only read after ch was found closed.
 	err error
+	// version is the version this exporter pins. Close must not read it from tree: a MutableTree
+	// moves the version of its embedded ImmutableTree on when it commits.
+	version int64
 }
 
 // NewExporter creates a new Exporter. Callers must call Close() when done.
@@ -56,7 +59,8 @@ func newExporter(tree *ImmutableTree) (*Exporter, error) {
 		cancel: cancel,
 	}
 
-	tree.ndb.incrVersionReaders(tree.version)
+	exporter.version = tree.version
+	tree.ndb.incrVersionReaders(exporter.version)
 	go exporter.export(ctx)
 
 	return exporter, nil
@@ -110,7 +114,7 @@ func (e *Exporter) Close() {
 	for range e.ch { //nolint:revive
 	} // drain channel
 	if e.tree != nil {
-		e.tree.ndb.decrVersionReaders(e.tree.version)
+		e.tree.ndb.decrVersionReaders(e.version)
 	}
 	e.tree = nil
 }
